@@ -18,7 +18,9 @@ package logqlmetric
 //@   ensures[result]  ret0 == s.current && ret1 == !s.current.After(s.end)
 
 //@ func (*rangeAggIterator).clearWindow
-//@   modifies i.window[*], everything
+//@   requires i.window != nil
+//@   modifies *
+//@   ensures i.window != nil
 //@   loop 1 invariant 0 <= n && n <= rangeindex+1 && rangeindex+1 <= len(s.Data)
 //@   loop 1 body_ensures[keep-iff-in-window] (!p.Timestamp.AsTime().Before(windowStart)) == (n == head(n)+1)
 //@   loop 1 body_ensures[compact-in-order]   n == head(n)+1 ==> same(s.Data[head(n)], p)
@@ -27,6 +29,45 @@ package logqlmetric
 //@ spec func offsetOf(e *logql.RangeAggregationExpr) time.Duration {
 //@   return ite(e.Range.Offset == nil, 0, e.Range.Offset.Duration)
 //@ }
+
+//@ func buildBatchAggregator
+//@   modifies nothing
+//@   ensures[count]      expr.Op == logql.RangeOpCount ==> ret1 == nil && typeis[*CountOverTime](ret0)
+//@   ensures[rate]       expr.Op == logql.RangeOpRate && expr.Range.Unwrap == nil ==> ret1 == nil && typeis[*Rate[CountOverTime]](ret0) && same(as[*Rate[CountOverTime]](ret0).selRange, expr.Range.Range.Seconds())
+//@   ensures[rate-unwrap] expr.Op == logql.RangeOpRate && expr.Range.Unwrap != nil ==> ret1 == nil && typeis[*Rate[SumOverTime]](ret0) && same(as[*Rate[SumOverTime]](ret0).selRange, expr.Range.Range.Seconds())
+//@   ensures[bytes]      expr.Op == logql.RangeOpBytes ==> ret1 == nil && typeis[*SumOverTime](ret0)
+//@   ensures[bytes-rate] expr.Op == logql.RangeOpBytesRate ==> ret1 == nil && typeis[*BytesRate](ret0) && same(as[*BytesRate](ret0).selRange, expr.Range.Range.Seconds())
+//@   ensures[avg]        expr.Op == logql.RangeOpAvg ==> ret1 == nil && typeis[*AvgOverTime](ret0)
+//@   ensures[sum]        expr.Op == logql.RangeOpSum ==> ret1 == nil && typeis[*SumOverTime](ret0)
+//@   ensures[min]        expr.Op == logql.RangeOpMin ==> ret1 == nil && typeis[*MinOverTime](ret0)
+//@   ensures[max]        expr.Op == logql.RangeOpMax ==> ret1 == nil && typeis[*MaxOverTime](ret0)
+//@   ensures[stdvar]     expr.Op == logql.RangeOpStdvar ==> ret1 == nil && typeis[*StdvarOverTime](ret0)
+//@   ensures[stddev]     expr.Op == logql.RangeOpStddev ==> ret1 == nil && typeis[*StddevOverTime](ret0)
+//@   ensures[quantile]   expr.Op == logql.RangeOpQuantile && expr.Parameter != nil ==> ret1 == nil && typeis[*QuantileOverTime](ret0) && same(as[*QuantileOverTime](ret0).param, *expr.Parameter)
+//@   ensures[quantile-needs-param] expr.Op == logql.RangeOpQuantile && expr.Parameter == nil ==> ret1 != nil
+//@   ensures[first]      expr.Op == logql.RangeOpFirst ==> ret1 == nil && typeis[*FirstOverTime](ret0)
+//@   ensures[last]       expr.Op == logql.RangeOpLast ==> ret1 == nil && typeis[*LastOverTime](ret0)
+//@   ensures[unsupported] (expr.Op == logql.RangeOpRateCounter || expr.Op == logql.RangeOpAbsent || expr.Op < logql.RangeOpCount || expr.Op > logql.RangeOpAbsent) ==> ret1 != nil
+
+//@ func (CountOverTime).Aggregate
+//@   pure
+//@   ensures ret0 == float64(len(points))
+
+//@ func (FirstOverTime).Aggregate
+//@   modifies nothing
+//@   ensures len(points) == 0 ==> ret0 == 0
+//@   ensures len(points) > 0 ==> same(ret0, points[0].Value)
+
+//@ func (LastOverTime).Aggregate
+//@   modifies nothing
+//@   ensures len(points) == 0 ==> last == 0
+//@   ensures len(points) > 0 ==> same(last, points[len(points)-1].Value)
+
+//@ func RangeAggregation
+//@   ensures[grid]     ret1 == nil ==> same(as[*rangeAggIterator](ret0).stepper, newStepper(start, end, ite(step == 0, time.Second, step)))
+//@   ensures[interval] ret1 == nil ==> as[*rangeAggIterator](ret0).interval == old(expr.Range.Range) && as[*rangeAggIterator](ret0).offset == old(offsetOf(expr))
+//@   ensures[source]   ret1 == nil ==> typeis[*rangeAggIterator](ret0) && as[*rangeAggIterator](ret0).iter == iter
+//@   ensures[window]   ret1 == nil ==> as[*rangeAggIterator](ret0).window != nil && !as[*rangeAggIterator](ret0).buffered
 
 //@ func build
 //@   capture s  = call(sel, 0)
@@ -39,14 +80,34 @@ package logqlmetric
 //@ iface BatchAggregator.Aggregate
 //@   pure
 
+//@ iface AggregatedLabels.Key
+//@   pure
+
 //@ func (*rangeAggIterator).fillWindow
-//@   trusted
-//@   modifies i.window[*], i.buffered, i.entry, i.iter
+//@   modifies *
+//@   assume_pure i.grouper
+//@   capture nx = call(i.iter.Next, 0)
+//@   capture g  = call(i.grouper, 0)
+//@   capture k  = call(metric.Key, 0)
+//@   loop 0 modifies *
+//@   loop 0 body_ensures[admit-iff-not-before-start] g_called == !e.Timestamp.AsTime().Before(windowStart)
+//@   loop 0 body_ensures[never-past-end]             !e.Timestamp.AsTime().After(windowEnd)
+//@   loop 0 body_ensures[grouped-by-key]             g_called ==> k_called && g_a0 == e.Set && has(i.window, k_r0)
+//@   loop 0 body_ensures[one-point-appended]         g_called ==> len(i.window[k_r0].Data) == head(len(i.window[k_r0].Data)) + 1
+//@   loop 0 body_ensures[point-is-the-sample]        g_called ==> same(i.window[k_r0].Data[len(i.window[k_r0].Data)-1], FPoint{Timestamp: e.Timestamp, Value: e.Sample})
+//@   loop 0 body_ensures[labels-kept-at-first-sight] g_called && !head(has(i.window, k_r0)) ==> i.window[k_r0].Set == g_r0
+//@   loop 0 exit_ensures[stops-at-end-or-exhausted]  (nx_called && !nx_r0) || e.Timestamp.AsTime().After(windowEnd)
+//@   loop 0 invariant i.window != nil
+//@   requires i.window != nil
+//@   ensures[buffered-only-if-past-end] i.buffered ==> i.entry.Timestamp.AsTime().After(windowEnd)
+//@   ensures[window-kept] i.window != nil
 
 //@ func (*rangeAggIterator).Next
+//@   requires i.window != nil
 //@   loop 0 modifies r.Samples, r.Samples[*]
 //@   capture st = call(i.stepper.next, 0)
 //@   capture fw = call(i.fillWindow, 0)
 //@   ensures[stop]         ret0 == st_r1
-//@   ensures[window]       ret0 ==> fw_called && fw_a1.Sub(fw_a0) == old(i.interval)
+//@   ensures[window-end]   ret0 ==> fw_called && fw_a1 == st_r0.Add(-old(i.offset))
+//@   ensures[window-start] ret0 ==> fw_called && fw_a0 == st_r0.Add(-old(i.offset)).Add(-old(i.interval))
 //@   ensures[stamp-is-evaluation-time] ret0 ==> r.Timestamp == otelstorage.NewTimestampFromTime(st_r0)
